@@ -1168,6 +1168,60 @@ pub fn one_main(check: &'static dyn Check, family: String, kind: String, data: S
     })
 }
 
+/// `vcheck render <prop> <family> <kind> <data>`: prints the written-out form of a case without
+/// exercising the code under test (checks that honour VCHECK_NO_COMPILE skip the compiler), so that a
+/// crashing input can be shown.
+pub fn render_main(check: &'static dyn Check, family: String, kind: String, data: String) -> i32 {
+    std::env::set_var("VCHECK_NO_COMPILE", "1");
+    install_panic_hook();
+    run_in_big_stack(move || {
+        let workdir = PathBuf::from(format!("{VERIF_ROOT}/work/render.{}", std::process::id()));
+        let _ = std::fs::create_dir_all(&workdir);
+        let journal = Journal::create(&workdir.join("render.journal"));
+        let mut ctx = ShardCtx {
+            prop: check.id(),
+            tier: Tier::Quick,
+            seed: 0,
+            shard: 0,
+            nshards: 1,
+            workdir: workdir.clone(),
+            stats: Stats::default(),
+            violation: None,
+            journal,
+            case_no: 0,
+            strict: true,
+        };
+        let families = check.families(Tier::Quick);
+        let rep = ReplayInput {
+            property: check.id().to_owned(),
+            family,
+            kind: kind.clone(),
+            bytes_hex: if kind == "bytes" { data.clone() } else { String::new() },
+            index: if kind == "index" { data.parse().unwrap_or(0) } else { 0 },
+            expect: String::new(),
+            note: String::new(),
+        };
+        let (_r, rendered) = run_one_replay(&mut ctx, &families, &rep, true);
+        let _ = std::fs::remove_dir_all(&workdir);
+        println!("RENDERED {}", serde_json::to_string(&rendered).unwrap_or_default());
+        0
+    })
+}
+
+fn render_in_child(prop: &str, family: &str, kind: &str, data: &str) -> Option<Value> {
+    use std::process::{Command, Stdio};
+    let exe = std::env::current_exe().ok()?;
+    let out = Command::new(exe)
+        .args(["render", prop, family, kind, data])
+        .stdin(Stdio::null())
+        .stderr(Stdio::null())
+        .output()
+        .ok()?;
+    let text = String::from_utf8_lossy(&out.stdout).into_owned();
+    let line = text.lines().find_map(|l| l.strip_prefix("RENDERED "))?;
+    serde_json::from_str(line).ok()
+}
+
 // ------------------------------------------------------------------------------------------
 // Supervisor
 // ------------------------------------------------------------------------------------------
@@ -1450,6 +1504,30 @@ pub fn supervise(check: &'static dyn Check, tier: Tier) -> i32 {
         std::thread::sleep(Duration::from_millis(100));
     }
 
+    // Solo re-runs of timed-out cases (tripled bound), all at once: each takes up to 3x the bound.
+    let mut solo: std::collections::HashMap<usize, OneOutcome> = std::collections::HashMap::new();
+    {
+        let timed_out: Vec<(usize, JournalRecord)> = workers
+            .iter()
+            .enumerate()
+            .filter(|(shard, w)| w.timed_out && !workdir.join(format!("shard{shard}.json")).exists())
+            .filter_map(|(shard, _)| read_journal(&workdir.join(format!("shard{shard}.journal"))).map(|r| (shard, r)))
+            .collect();
+        let results: Vec<(usize, OneOutcome)> = std::thread::scope(|sc| {
+            let handles: Vec<_> = timed_out
+                .iter()
+                .map(|(shard, rec)| {
+                    let (kind, data) = if rec.kind == 2 { ("index", rec.index.to_string()) } else { ("bytes", to_hex(&rec.data)) };
+                    let family = rec.family.clone();
+                    let shard = *shard;
+                    sc.spawn(move || (shard, run_one_process(prop, &family, kind, &data, case_timeout * 3, false)))
+                })
+                .collect();
+            handles.into_iter().filter_map(|h| h.join().ok()).collect()
+        });
+        solo.extend(results);
+    }
+
     // Collect
     let mut stats = Stats::default();
     let mut violations: Vec<Violation> = Vec::new();
@@ -1481,12 +1559,16 @@ pub fn supervise(check: &'static dyn Check, tier: Tier) -> i32 {
             ("bytes", to_hex(&rec.data))
         };
         if w.timed_out {
-            // Solo re-run with a tripled bound.
-            let o = run_one_process(prop, &rec.family, kind, &data, case_timeout * 3, false);
+            // Solo re-run with a tripled bound (done above, in parallel).
+            let o = match solo.remove(&shard) {
+                Some(o) => o,
+                None => run_one_process(prop, &rec.family, kind, &data, case_timeout * 3, false),
+            };
             if o.timed_out {
                 if check.timeout_is_violation() {
+                    let rendered = render_in_child(prop, &rec.family, kind, &data);
                     violations.push(crash_violation(prop, &rec, "timeout", format!(
-                        "case did not finish within {:?} (solo re-run, 3x bound)", case_timeout * 3), 0, None));
+                        "case did not finish within {:?} (solo re-run, 3x bound)", case_timeout * 3), 0, rendered));
                 } else {
                     infra.push(format!(
                         "shard {shard}: case of family {} hangs (> {:?}); inconclusive for {prop}, see C01",
@@ -1524,10 +1606,12 @@ pub fn supervise(check: &'static dyn Check, tier: Tier) -> i32 {
             let (min, attempts) = shrink_crash(prop, &rec.family, &rec.data, &confirmed_class, case_timeout * 3);
             let mut rec2 = rec;
             rec2.data = min;
-            // render the minimal case (tolerant of a second crash: rendering happens in a child)
-            violations.push(crash_violation(prop, &rec2, &confirmed_class, o.output, attempts, None));
+            // render the minimal case in a child that does not run the code under test
+            let rendered = render_in_child(prop, &rec2.family, "bytes", &to_hex(&rec2.data));
+            violations.push(crash_violation(prop, &rec2, &confirmed_class, o.output, attempts, rendered));
         } else {
-            violations.push(crash_violation(prop, &rec, &confirmed_class, o.output, 0, None));
+            let rendered = render_in_child(prop, &rec.family, kind, &data);
+            violations.push(crash_violation(prop, &rec, &confirmed_class, o.output, 0, rendered));
         }
     }
 
